@@ -7,85 +7,39 @@ hypothesis, and the assembly of the completeness statement.
 namespace C02
 open CTV.Model.ChainCheck
 
-theorem length_le_one_of_same {α β} [DecidableEq β] (f : α → β) : ∀ (l : List α), (l.map f).Nodup → (∀ a ∈ l, ∀ b ∈ l, f a = f b) → l.length ≤ 1
-  | [], _, _ => by simp
-  | [_], _, _ => by simp
-  | a :: b :: t, hn, hs => by
-    exfalso
-    have := hs a (by simp) b (by simp)
-    simp only [List.map_cons, List.nodup_cons] at hn
-    exact hn.1 (by simp [this])
+/-- `c`'s authority key identifier does not hide `x` in `pool`: it is absent, or matches no subject key identifier
+in the pool, or is `x`'s subject key identifier.  (`findPotentialParents` tries key identifiers first and falls
+back to names only when that finds nothing.) -/
+def AkiFinds (pool : List Cert) (c x : Cert) : Prop :=
+  ∀ k, c.aki = some k → (∃ y ∈ pool, y.ski = some k) → x.ski = some k
 
-theorem eq_singleton_of_mem {α} {l : List α} {x : α} (hl : l.length ≤ 1) (hx : x ∈ l) : l = [x] := by
-  match l, hl, hx with
-  | [a], _, hx => simp at hx; simp [hx]
-  | _ :: _ :: _, hl, _ => simp at hl
-
-/-- The pool has no two different certificates with the same subject. -/
-def DistinctSubjects (pool : List Cert) : Prop := ∀ a ∈ pool, ∀ b ∈ pool, a.subject = b.subject → a.id = b.id
-
-/-- `c`'s authority key identifier is absent, or matches only pool members that carry `c`'s issuer name
-(in particular: matches nothing). -/
-def AkiConsistent (pool : List Cert) (c : Cert) : Prop :=
-  ∀ k, c.aki = some k → ∀ x ∈ pool, x.ski = some k → x.subject = c.issuer
-
-theorem nameMatches_length {pool : List Cert} (hn : (pool.map (·.id)).Nodup) (hd : DistinctSubjects pool) (s : Nat) :
-    (pool.filter (fun p => p.subject == s)).length ≤ 1 := by
-  apply length_le_one_of_same (·.id)
-  · exact List.Nodup.sublist (List.Sublist.map _ List.filter_sublist) hn
-  · intro a ha b hb
-    have ha' := List.mem_filter.1 ha
-    have hb' := List.mem_filter.1 hb
-    have ea : a.subject = s := by simpa using ha'.2
-    have eb : b.subject = s := by simpa using hb'.2
-    exact hd a ha'.1 b hb'.1 (ea.trans eb.symm)
-
-theorem fpp_length {pool : List Cert} {c : Cert} (hn : (pool.map (·.id)).Nodup) (hd : DistinctSubjects pool) (ha : AkiConsistent pool c) :
-    (findPotentialParents pool c).length ≤ 1 := by
-  unfold findPotentialParents
+theorem mem_fpp_of {pool : List Cert} {c x : Cert} (hx : x ∈ pool) (hn : c.issuer = x.subject) (ha : AkiFinds pool c x) :
+    x ∈ findPotentialParents pool c := by
+  rw [findPotentialParents_eq]
   cases hk : c.aki with
-  | none => simpa using nameMatches_length hn hd c.issuer
+  | none => exact List.mem_filter.2 ⟨hx, by simp [hn]⟩
   | some k =>
     simp only
     split
-    · exact nameMatches_length hn hd c.issuer
-    · -- the key-id matches all carry the issuer name
-      have : pool.filter (fun p => p.ski == some k) = (pool.filter (fun p => p.subject == c.issuer)).filter (fun p => p.ski == some k) := by
-        rw [List.filter_filter]
-        apply List.filter_congr
-        intro x hx
-        cases hs : (x.ski == some k)
-        · simp
-        · have := ha k hk x hx (by simpa using hs)
-          simp [this]
-      rw [this]
-      exact Nat.le_trans (List.length_filter_le _ _) (nameMatches_length hn hd c.issuer)
-
-theorem fpp_eq_singleton {pool : List Cert} {c x : Cert} (hn : (pool.map (·.id)).Nodup) (hd : DistinctSubjects pool) (ha : AkiConsistent pool c)
-    (hx : x ∈ pool) (hname : c.issuer = x.subject) : findPotentialParents pool c = [x] := by
-  have hnm : pool.filter (fun p => p.subject == c.issuer) = [x] :=
-    eq_singleton_of_mem (nameMatches_length hn hd c.issuer) (List.mem_filter.2 ⟨hx, by simp [hname]⟩)
-  have hlen := fpp_length hn hd ha (c := c)
-  unfold findPotentialParents at hlen ⊢
-  cases hk : c.aki with
-  | none => simpa [hk] using hnm
-  | some k =>
-    simp only [hk] at hlen ⊢
-    split
-    · exact hnm
+    · exact List.mem_filter.2 ⟨hx, by simp [hn]⟩
     · rename_i hne
-      -- a non-empty list of key-id matches, all with the issuer name, inside a pool with distinct subjects
-      have hne' : pool.filter (fun p => p.ski == some k) ≠ [] := by
-        intro e; rw [e] at hne; simp at hne
-      obtain ⟨y, hy⟩ := List.exists_mem_of_ne_nil _ hne'
-      have hy' := List.mem_filter.1 hy
-      have hys : y.subject = c.issuer := ha k hk y hy'.1 (by simpa using hy'.2)
-      have : y ∈ pool.filter (fun p => p.subject == c.issuer) := List.mem_filter.2 ⟨hy'.1, by simp [hys]⟩
-      rw [hnm] at this
-      have hyx : y = x := by simpa using this
-      subst hyx
-      simp only [hne, ite_false, Bool.false_eq_true] at hlen
-      exact eq_singleton_of_mem hlen hy
+      have hex : ∃ y ∈ pool, y.ski = some k := by
+        cases hf : pool.filter (fun p => p.ski == some k) with
+        | nil => rw [hf] at hne; simp at hne
+        | cons y ys =>
+          have : y ∈ pool.filter (fun p => p.ski == some k) := by rw [hf]; simp
+          exact ⟨y, (List.mem_filter.1 this).1, by simpa using (List.mem_filter.1 this).2⟩
+      exact List.mem_filter.2 ⟨hx, by simp [ha k hk hex]⟩
+
+theorem fpp_is_filter (pool : List Cert) (c : Cert) : ∃ p : Cert → Bool, findPotentialParents pool c = pool.filter p := by
+  rw [findPotentialParents_eq]
+  cases c.aki with
+  | none => exact ⟨_, rfl⟩
+  | some k =>
+    simp only
+    split
+    · exact ⟨_, rfl⟩
+    · exact ⟨_, rfl⟩
 
 theorem foldl_addCert_nodup : ∀ (cs acc : List Cert), ((acc ++ cs).map (·.id)).Nodup → cs.foldl addCert acc = acc ++ cs
   | [], acc, _ => by simp
@@ -149,55 +103,70 @@ theorem linked_prefix {α} {R : α → α → Prop} : ∀ (a b : List α), Linke
   | [_], _, _ => trivial
   | x :: y :: t, b, h => ⟨h.1, linked_prefix (y :: t) b h.2⟩
 
-theorem DistinctSubjects.mono {p q : List Cert} (h : DistinctSubjects q) (hs : ∀ x ∈ p, x ∈ q) : DistinctSubjects p :=
-  fun a ha b hb e => h a (hs a ha) b (hs b hb) e
-
-theorem AkiConsistent.mono {p q : List Cert} {c : Cert} (h : AkiConsistent q c) (hs : ∀ x ∈ p, x ∈ q) : AkiConsistent p c :=
-  fun k hk x hx e => h k hk x (hs x hx) e
-
 /-- From the declarative conditions to the search-level track. -/
-theorem onTrack_of (E : Env) (hnR : (E.roots.map (·.id)).Nodup) (hnI : (E.inter.map (·.id)).Nodup)
-    (hd : DistinctSubjects (E.roots ++ E.inter)) :
-    ∀ (T : List Cert), Linked (Link E.sigOK) T → (∀ c ∈ T.dropLast, AkiConsistent (E.roots ++ E.inter) c) →
-      (∀ x ∈ T.tail.dropLast, x ∈ E.inter ∧ IsInterCA x) → (∀ r, T.getLast? = some r → 2 ≤ T.length → r ∈ E.roots) → OnTrack E T
-  | [], _, _, _, _ => trivial
-  | [_], _, _, _, _ => trivial
-  | c :: x :: more, hl, ha, hi, hr => by
-    have hdR : DistinctSubjects E.roots := hd.mono (fun x hx => List.mem_append_left _ hx)
-    have hdI : DistinctSubjects E.inter := hd.mono (fun x hx => List.mem_append_right _ hx)
-    have hac : AkiConsistent (E.roots ++ E.inter) c := ha c (by simp [List.dropLast])
-    have haR : AkiConsistent E.roots c := hac.mono (fun x hx => List.mem_append_left _ hx)
-    have haI : AkiConsistent E.inter c := hac.mono (fun x hx => List.mem_append_right _ hx)
-    refine ⟨⟨hl.1, fpp_length hnR hdR haR, ?_, ?_⟩, ?_⟩
-    · intro hm
-      have hm' : more = [] := by simpa using hm
-      subst hm'
-      exact fpp_eq_singleton hnR hdR haR (hr x (by simp) (by simp)) hl.1.1
-    · intro hm
-      have hm' : more ≠ [] := by intro e; subst e; simp at hm
-      obtain ⟨y, ys, rfl⟩ := List.exists_cons_of_ne_nil hm'
-      have hx := hi x (by simp [List.dropLast])
-      exact ⟨fpp_eq_singleton hnI hdI haI hx.1 hl.1.1, hx.2⟩
-    · apply onTrack_of E hnR hnI hd (x :: more) hl.2
-      · intro c' hc'
-        apply ha c'
-        cases more with
-        | nil => simp [List.dropLast] at hc'
-        | cons y ys => simp only [List.dropLast_cons₂] at hc' ⊢; exact List.mem_cons_of_mem _ hc'
+theorem onTrack_of (E : Env) :
+    ∀ (rem cur : List Cert) (c : Cert),
+      (∀ a ∈ c :: rem, ∀ x, x ∈ E.inter → a.issuer = x.subject → AkiFinds E.inter a x) →
+      (∀ a ∈ c :: rem, ∀ x, x ∈ E.roots → a.issuer = x.subject → AkiFinds E.roots a x) →
+      cur ≠ [] → Linked (Link E.sigOK) (c :: rem) →
+      (∃ tl, E.inter = cur.tail ++ rem.dropLast ++ tl) → (∀ x ∈ rem.dropLast, IsInterCA x) →
+      (∀ r, rem.getLast? = some r → r ∈ E.roots) → OnTrack E c cur rem
+  | [], _, _, _, _, _, _, _, _, _ => trivial
+  | [x], _, c, _, hAr, _, hl, _, _, hr => by
+    have hx := hr x rfl
+    exact ⟨hl.1, mem_fpp_of hx hl.1.1 (hAr c (by simp) x hx hl.1.1)⟩
+  | x :: y :: more, cur, c, hAi, hAr, hne, hl, ⟨tl, hI⟩, hca, hr => by
+    have hdl : (x :: y :: more).dropLast = x :: (y :: more).dropLast := rfl
+    rw [hdl] at hI
+    have hxI : x ∈ E.inter := by rw [hI]; simp
+    have hmem := mem_fpp_of hxI hl.1.1 (hAi c (by simp) x hxI hl.1.1)
+    obtain ⟨p, hp⟩ := fpp_is_filter E.inter c
+    have hpx : p x = true := by rw [hp] at hmem; exact (List.mem_filter.1 hmem).2
+    refine ⟨hl.1, hca x (by simp [hdl]), ⟨cur.tail.filter p, ((y :: more).dropLast ++ tl).filter p, ?_, ?_⟩, ?_⟩
+    · rw [hp, hI]
+      simp [List.filter_append, List.filter_cons, hpx]
+    · intro z hz
+      have hz' := (List.mem_filter.1 hz).1
+      obtain ⟨h0, t0, rfl⟩ := List.exists_cons_of_ne_nil hne
+      exact List.mem_map.2 ⟨z, List.mem_cons_of_mem _ hz', rfl⟩
+    · apply onTrack_of E (y :: more) (cur ++ [x]) x (fun a ha => hAi a (List.mem_cons_of_mem _ ha))
+        (fun a ha => hAr a (List.mem_cons_of_mem _ ha)) (by simp) hl.2
+      · refine ⟨tl, ?_⟩
+        obtain ⟨h0, t0, rfl⟩ := List.exists_cons_of_ne_nil hne
+        rw [hI]; simp
       · intro z hz
-        apply hi z
-        cases more with
-        | nil => simp [List.dropLast] at hz
-        | cons y ys =>
-          simp only [List.tail_cons] at hz ⊢
-          simp only [List.dropLast_cons₂]
-          exact List.mem_cons_of_mem _ hz
-      · intro r hr' hlen
-        apply hr r
-        · cases more with
-          | nil => simp at hlen
-          | cons y ys => simpa [List.getLast?_cons_cons] using hr'
-        · simp
+        exact hca z (by rw [hdl]; exact List.mem_cons_of_mem _ hz)
+      · intro r hr'
+        exact hr r (by simpa [List.getLast?_cons_cons] using hr')
+
+/-- One signature check per root candidate and one for the next certificate, per submitted certificate. -/
+def searchCost (roots : List Cert) (cs : List Cert) : Nat :=
+  (cs.map fun c => (findPotentialParents roots c).length + 1).sum
+
+theorem cost_eq (E : Env) : ∀ (rem : List Cert) (c : Cert), rem ≠ [] → cost E c rem = searchCost E.roots ((c :: rem).dropLast)
+  | [], _, h => absurd rfl h
+  | [x], c, _ => by simp [cost, searchCost, List.dropLast]
+  | x :: y :: more, c, _ => by
+    have ih := cost_eq E (y :: more) x (by simp)
+    have hdl : (c :: x :: y :: more).dropLast = c :: (x :: y :: more).dropLast := rfl
+    simp only [cost, hdl, searchCost, List.map_cons, List.sum_cons] at ih ⊢
+    omega
+
+theorem searchCost_dropLast_le (roots : List Cert) : ∀ (cs : List Cert), searchCost roots cs.dropLast ≤ searchCost roots cs
+  | [] => by simp [searchCost]
+  | [_] => by simp [searchCost, List.dropLast]
+  | a :: b :: t => by
+    have ih := searchCost_dropLast_le roots (b :: t)
+    have hdl : (a :: b :: t).dropLast = a :: (b :: t).dropLast := rfl
+    simp only [hdl, searchCost, List.map_cons, List.sum_cons] at ih ⊢
+    omega
+
+theorem length_le_searchCost (roots : List Cert) : ∀ (cs : List Cert), cs.length ≤ searchCost roots cs
+  | [] => by simp [searchCost]
+  | a :: t => by
+    have ih := length_le_searchCost roots t
+    simp only [searchCost, List.map_cons, List.sum_cons, List.length_cons] at ih ⊢
+    omega
 
 theorem parseAll_map_some : ∀ (cs : List Cert), parseAll (cs.map some) = some cs
   | [] => rfl
@@ -207,14 +176,14 @@ theorem parseAll_map_some : ∀ (cs : List Cert), parseAll (cs.map some) = some 
 structure SideConditions (roots : List Cert) (cs : List Cert) : Prop where
   /-- no certificate is submitted twice -/
   noRepeat : (cs.map (·.id)).Nodup
-  /-- the trusted pool holds every certificate once (true of every `PEMCertPool`) -/
-  rootsPool : (roots.map (·.id)).Nodup
-  /-- no two different certificates among pool and submitted intermediates share a subject -/
-  distinctSubjects : DistinctSubjects (roots ++ cs.tail)
-  /-- authority key identifiers never point at a certificate with another name -/
-  akiConsistent : ∀ c ∈ cs, AkiConsistent (roots ++ cs.tail) c
-  /-- at most two signature checks per submitted certificate fit the budget of 100 -/
-  budget : 2 * cs.length + 2 ≤ 100
+  /-- an authority key identifier never hides a certificate that carries the issuer's name: in either pool, whenever a
+  member has the name a submitted certificate names as its issuer, that certificate's AKI is absent, or matches no
+  SKI in the pool, or is that member's SKI -/
+  akiFindsIssuer : ∀ c ∈ cs, (∀ x ∈ roots, c.issuer = x.subject → AkiFinds roots c x) ∧
+    (∀ x ∈ cs.tail, c.issuer = x.subject → AkiFinds cs.tail c x)
+  /-- the walk along the chain fits the budget of 100 signature checks: per submitted certificate one for every root
+  candidate and one for the next certificate -/
+  budget : searchCost roots cs ≤ 100
   /-- a leaf that is followed by further certificates is not itself a member of the trusted pool
   (`Verify` answers `[[leaf]]` at once for a trusted leaf); any *other* submitted certificate may be trusted -/
   leafNotTrusted : ∀ l rest, cs = l :: rest → rest ≠ [] → poolContains roots l = false
